@@ -15,7 +15,8 @@ UTF-8 lead and continuation bytes are ≥ 0x80, hence never '\n' and never a bla
 (`Lemmas.nonascii_not_structural`): multi-byte characters in the free-text places (comment line, atom
 names, header texts) are ordinary bytes of the model, whole or cut in the middle (the code opens the
 file with errors="surrogateescape", so a partly written character decodes to a non-blank surrogate).
-Not modelled: universal-newline translation of '\r' (the content is assumed free of '\r'), non-ASCII
+'\r': since /repo d5ef98e the file is opened with newline="\n" — no newline translation: '\r' is an ordinary blank
+(`isBlank`) and only '\n' ends a line (`readline`/`lines`), also in CRLF files.  Not modelled: non-ASCII
 *Unicode* whitespace (U+0085, U+00A0, U+2000…, U+3000 — `str.split()` would split there), locales whose
 encoding is not UTF-8, `int()`/`float()` literals outside
 `[+-]digits` / `[+-](d+[.d*]|.d+)([eE][+-]d+)` (no "inf", "nan", "1_0").
